@@ -472,9 +472,19 @@ def exec_api(case):
         limit = case['limit']
         fn = api.succeeded if case['succeeded'] else api.failed
         status = 'success' if case['succeeded'] else 'failure'
+        nowbox = [now]
+
         def ask():
-            raw = fn(after=[after.isoformat()] if after else None,
-                     before=[before.isoformat()] if before else None,
+            def text(b):
+                # the same instant written with another UTC offset
+                off = case.get('offset', 0)
+                if off:
+                    out.label('bound-written-with-a-utc-offset')
+                return b.astimezone(datetime.timezone(
+                    datetime.timedelta(minutes=off))).isoformat()
+
+            raw = fn(after=[text(after)] if after else None,
+                     before=[text(before)] if before else None,
                      limit=[str(limit)] if limit else None)
             ans = json.loads(raw)
             if ans.get('status') != 'success':
@@ -482,7 +492,7 @@ def exec_api(case):
                 return False
             res = ans['content']
             lo = after or datetime.datetime(1980, 1, 1, tzinfo=datetime.UTC)
-            hi = before or now
+            hi = before or nowbox[0]
 
             def comp(e):
                 return datetime.datetime.fromisoformat(e['timing']['completed'])
@@ -549,6 +559,19 @@ def exec_api(case):
             finally:
                 sched.que = saved_que
                 dawgie.context.boot_time = old_boot
+            # work goes on meanwhile: more completions, also on days that
+            # had no journal when the first question was asked
+            for e in case.get('more') or ():
+                rec = _mk_record(e)
+                chron.append(rec)
+                appended.append(rec)
+            if case.get('more'):
+                out.label('more-completions-before-asking-again')
+                last = max(datetime.datetime.fromisoformat(
+                    r['timing']['completed']) for r in appended)
+                if last >= nowbox[0]:
+                    nowbox[0] = last + datetime.timedelta(seconds=1)
+                    clock.now = nowbox[0]
             ask()
     finally:
         api.datetime = real_dt
@@ -573,6 +596,8 @@ def _api_case(draw):
         'entries': entries, 'after': after, 'before': before, 'limit': limit,
         'succeeded': draw(st.booleans()),
         'again': draw(st.booleans()),
+        'more': draw(st.lists(_entry, max_size=4)),
+        'offset': draw(st.sampled_from([0, 0, 120, -330, 60])),
         'now_off': draw(st.integers(0, 86400)),
         'last': [(last - EPOCH).days, (last - EPOCH).seconds,
                  (last - EPOCH).microseconds],
